@@ -23,7 +23,7 @@ GEN = ['PlaneType']
 OPS = ['C08']
 RULE = ('programs of 1..12 (quick) / 1..40 (thorough) operations drawn from {multiply by an instance of each of the 9 public plane '
         'classes (scalar or array-valued), multiply by Plane(ptype=t) for each of the 5 ptypes, propagate_dft, propagate_fft} '
-        'from each of the 3 start types; distinct = (start, op sequence); non-trivial = the program contains at least one '
+        'from each of the 3 start types, each built three ways (one array field; no field: Wavefront.empty; no field left after two planes with non-overlapping apertures); distinct = (start, op sequence); non-trivial = the program contains at least one '
         'accepted and one refused step or a propagation')
 TRUSTED = ['table generators of tools/specs/c08.py: evaluation of the closed Python fragment of _can_mul_ptype/_mul_result_ptype/'
            '_propagate_ptype/constructors on every input of their finite domain; RST grid/simple table parsing']
@@ -35,16 +35,20 @@ ASSUMPTIONS = ['programs continue after a refusal with the operands as they were
 CLASSES = ['Plane', 'Pupil', 'Image', 'Tilt', 'DispersiveTilt', 'Grism', 'LensletArray', 'Rotate', 'Flip']
 PTYPES = ['none', 'pupil', 'image', 'tilt', 'transform']
 WTYPES = ['none', 'pupil', 'image']
+# how the start wavefront is built: one array field / no field at all (Wavefront.empty) / no field left after two planes
+# with non-overlapping apertures
+MODES = ['field', 'empty', 'disjoint']
 
 def generate(rng, tier):
     n, lmax = {'quick': (300, 12), 'thorough': (5000, 40), 'search': (1500, 16)}[tier]
     out = []
     # every (start, single op) pair first: exhaustive over the table and the classes
     for s in WTYPES:
-        for c in CLASSES: out.append({'start': s, 'ops': [{'k': 'cls', 'cls': c, 'arr': False, 'par': 0}]})
-        for p in PTYPES: out.append({'start': s, 'ops': [{'k': 'pt', 'pt': p, 'arr': False, 'par': 0}]})
-        out.append({'start': s, 'ops': [{'k': 'prop', 'fft': False, 'par': 0}]})
-        out.append({'start': s, 'ops': [{'k': 'prop', 'fft': True, 'par': 0}]})
+        for mode in MODES:
+            for c in CLASSES: out.append({'start': s, 'mode': mode, 'ops': [{'k': 'cls', 'cls': c, 'arr': False, 'par': 0}, {'k': 'prop', 'fft': False, 'par': 0}]})
+            for p in PTYPES: out.append({'start': s, 'mode': mode, 'ops': [{'k': 'pt', 'pt': p, 'arr': False, 'par': 0}]})
+            out.append({'start': s, 'mode': mode, 'ops': [{'k': 'prop', 'fft': False, 'par': 0}]})
+        out.append({'start': s, 'mode': 'field', 'ops': [{'k': 'prop', 'fft': True, 'par': 0}]})
     for i in range(n):
         L = int(rng.integers(1, lmax + 1))
         ops = []
@@ -56,16 +60,16 @@ def generate(rng, tier):
                 ops.append({'k': 'pt', 'pt': PTYPES[int(rng.integers(0, 5))], 'arr': bool(rng.integers(0, 3) == 0), 'par': int(rng.integers(0, 4))})
             else:
                 ops.append({'k': 'prop', 'fft': bool(rng.integers(0, 2)), 'par': int(rng.integers(0, 4))})
-        out.append({'start': WTYPES[i % 3], 'ops': ops})
+        out.append({'start': WTYPES[i % 3], 'mode': MODES[(i // 3) % 4 % 3], 'ops': ops})
     return out
 
 def _opname(o):
     return o['cls'] if o['k'] == 'cls' else ('pt:' + o['pt'] if o['k'] == 'pt' else 'prop')
 
-def signature(c): return c['start'] + ' ' + ' '.join(_opname(o) for o in c['ops'])
+def signature(c): return c['start'] + '/' + c.get('mode', 'field') + ' ' + ' '.join(_opname(o) for o in c['ops'])
 def nontrivial(c): return len(c['ops']) > 1 or c['ops'][0]['k'] == 'prop'
 def tags(c):
-    t = ['start:' + c['start'], 'len:%d' % min(len(c['ops']), 20)]
+    t = ['start:' + c['start'], 'mode:' + c.get('mode', 'field'), 'len:%d' % min(len(c['ops']), 20)]
     t += sorted({('op:' + _opname(o)) for o in c['ops']})
     return t
 
@@ -104,8 +108,18 @@ def impl(case):
     lentil = vlib.import_lentil()
     with warnings.catch_warnings():
         warnings.simplefilter('ignore')
-        w = lentil.Plane(amplitude=np.ones((4, 4)), pixelscale=1e-3).multiply(lentil.Wavefront(5e-7, focal_length=2.0))
-        w.ptype = case['start']
+        mode = case.get('mode', 'field')
+        if mode == 'empty':
+            w = lentil.Wavefront.empty(5e-7, pixelscale=1e-3, focal_length=2.0, shape=(4, 4), ptype=case['start'])
+        elif mode == 'disjoint':
+            A = np.zeros((8, 8)); A[0:3, 0:3] = 1
+            B = np.zeros((8, 8)); B[5:8, 5:8] = 1
+            w = lentil.Plane(amplitude=B, pixelscale=1e-3).multiply(lentil.Plane(amplitude=A, pixelscale=1e-3).multiply(lentil.Wavefront(5e-7, focal_length=2.0)))
+            w.ptype = case['start']
+        else:
+            w = lentil.Plane(amplitude=np.ones((4, 4)), pixelscale=1e-3).multiply(lentil.Wavefront(5e-7, focal_length=2.0))
+            w.ptype = case['start']
+        if mode != 'field' and len(w.data) != 0: return {'exc': 'start-not-empty'}
         if str(w.ptype) != case['start']: return {'exc': 'start'}
         trace, mutated, ptypes = [], [], []
         for i, o in enumerate(case['ops']):
@@ -115,7 +129,7 @@ def impl(case):
                 try:
                     N = 8
                     du = w.wavelength * w.focal_length / (N * w.pixelscale[0])
-                    if o['fft'] and not any(f.tilt for f in w.data):
+                    if o['fft'] and w.data and not any(f.tilt for f in w.data):
                         w2 = lentil.propagate_fft(w, pixelscale=du, oversample=1)
                     else:
                         w2 = lentil.propagate_dft(w, pixelscale=du, shape=(4 + o['par'], 6), oversample=1 + o['par'] % 2)
@@ -238,7 +252,7 @@ def oracle(case, io):
 def shrink(c):
     ops = c['ops']
     for i in range(len(ops)):
-        yield {'start': c['start'], 'ops': ops[:i] + ops[i + 1:]}
+        yield {'start': c['start'], 'mode': c.get('mode', 'field'), 'ops': ops[:i] + ops[i + 1:]}
 
 # ------------------------------------------------------------------------------------------ known findings
 def matches_finding(kf, case, msg):
